@@ -86,6 +86,10 @@ def run(ctx):
     nskel = 400 if ctx.tier == "quick" else 20000
     dbccheck.count_guard(ctx, PID, summ.get("total", -1), compared, need_skeleton=nskel, min_compared_ratio=0.95)
     ctx.min_evaluations = 9000 if ctx.tier == "quick" else 120000
+    # (2a) a fifth of the records at least must have been recomputed in the parser's hexadecimal number mode
+    if dbccheck.last_hexrecords * 5 < compared:
+        ctx.violation("c09-hex-mode-count", "only %d of %d compared records are in the parser's hexadecimal number mode (a quarter is generated)"
+                      % (dbccheck.last_hexrecords, compared), {}, found_input=False)
     # (2b) the importer's outcome class and error kind against the extracted model of the importer (coq/C10/Import.v):
     # the driver must have compared a fixed share of the inputs (a comparison that silently covers nothing is a failure)
     imp = dbccheck.last_import
@@ -167,6 +171,7 @@ def run(ctx):
         "model_mismatches": mism,
         "model_mismatch_kinds": {k: len(v) for k, v in by_kind.items()},
         "import_model_comparison": dbccheck.last_import,
+        "records_in_hex_number_mode": dbccheck.last_hexrecords,
         "failures": [h[0] for h, _ in summ["fails"]],
         "samples": samples or ["(see cases.txt in scratch)"],
         "exhaustive": False,
